@@ -11,8 +11,8 @@ from vlib import cN, clist, cpair, log
 
 PID = "C10"
 PROPS = "C10_Props.v"
-TARGETS = ["C10_Props.vo", "C10_Check.vo", "C10_CacheProps.vo", "C10_Ctl_Props.vo"]
-HARNESS = ["control/common_test.go", "control/c10_test.go", "control/c10ctl_test.go"]
+TARGETS = ["C10_Props.vo", "C10_Check.vo", "C10_CacheProps.vo", "C10_Ctl_Props.vo", "gen/C10_SyncProg.vo"]
+HARNESS = ["control/common_test.go", "control/c10_test.go", "control/c10ctl_test.go", "control/c10conc_test.go"]
 
 BITMAPS = [0, 1, 2, 3, 5, 6, 1 << 31, 1 << 32, (1 << 31) | 1, 1 << 1023, (1 << 1023) | (1 << 32), 0xffffffff, 1 << 33]
 ADDRS = ["1.2.3.4", "1.2.3.5", "10.0.0.1", "255.255.255.255", "::1", "2001:db8::1", "2001:db8::2", "::ffff:1.2.3.4",
@@ -543,6 +543,177 @@ def shrink_ctl(sc, binary, case, codes=None):
     return dict(case, ops=ops)
 
 
+# ------------------------------------------------------------------------------------------------
+# third stream: concurrent syncOwner calls (C10_Conc_Model.v)
+# ------------------------------------------------------------------------------------------------
+CODE_PROG = ["ILock", "IPlan", "IWrite", "IApply", "IUnlock"]
+CONC_CODES = "1 impl<>model (mutex held at the write step / B completed while A parked / kernel map / merged)  2 impl<>spec (kernel shadow is the table of neither sequential order)  3 model<>spec  7 mutex not held at A's write step or B completed while A was parked there  9 panic/error/inconclusive"
+
+
+def extract_sync_prog():
+    """The order of mutex operations, planning reads, kernel write and bookkeeping in syncOwner, by shape.
+    Returns (list of instruction names, None) or (None, why the shape is not recognised)."""
+    path = os.path.join(vlib.REPO, "control", "domain_routing_tracker.go")
+    src = open(path).read()
+    m = re.search(r"func \(t \*domainRoutingTracker\) syncOwner\(.*?\n\}\n", src, re.S)
+    if not m:
+        return None, "func (t *domainRoutingTracker) syncOwner not found in " + path
+    prog, deferred = [], 0
+    for line in m.group(0).split("\n"):
+        line = line.split("//")[0]
+        ins = None
+        if re.search(r"\bt\.mu\.(RLock|RUnlock|TryLock)\(", line):
+            return None, "unexpected mutex operation in syncOwner: " + line.strip()
+        if re.search(r"\bdefer\s+t\.mu\.Unlock\(\)", line):
+            deferred += 1
+            continue
+        if re.search(r"\bt\.mu\.Lock\(\)", line):
+            ins = "ILock"
+        elif re.search(r"\bt\.mu\.Unlock\(\)", line):
+            ins = "IUnlock"
+        elif re.search(r"\bt\.(owners|ips)\[|desiredBitmapForKeyLocked\(", line):
+            ins = "IPlan"
+        elif re.search(r"verifObserveDomainRouting\(|BpfMapBatchUpdate\(|BpfMapBatchDelete\(", line):
+            ins = "IWrite"
+        elif re.search(r"applyOwnerSnapshotLocked\(", line):
+            ins = "IApply"
+        if ins and (not prog or prog[-1] != ins or ins in ("ILock", "IUnlock")):
+            prog.append(ins)
+    prog += ["IUnlock"] * deferred
+    core = [x for x in prog if x in ("IPlan", "IWrite", "IApply")]
+    if core != ["IPlan", "IWrite", "IApply"]:
+        return None, "syncOwner is not plan / write / apply once each in this order: " + " ".join(prog)
+    return prog, None
+
+
+def write_sync_prog(prog):
+    text = ("(* GENERATED by tools/c10.py from control/domain_routing_tracker.go (func syncOwner) - do not edit.\n"
+            "   The order of mutex operations, planning reads, kernel write and bookkeeping in the source. *)\n"
+            "From Coq Require Import List.\nFrom Dae Require Import C10_Conc_Model.\nImport ListNotations.\n"
+            "Definition sync_prog : list instr := [%s].\n" % "; ".join(prog))
+    vlib.write_if_changed(os.path.join(vlib.COQ, "gen", "C10_SyncProg.v"), text)
+
+
+def gen_conc_case(rng):
+    owners = ["o%d" % i for i in range(4)] + ["cdn.example.1|asis@8.8.8.8:53", "cdn.example.1|upstream@udp://1.1.1.1:53"]
+    addrs = rng.sample(ADDRS, rng.randint(1, 4))
+
+    def mk(o, allow_remove=True):
+        if allow_remove and rng.random() < 0.15:
+            return {"owner": o, "remove": True, "bitmap": "0", "ips": []}
+        bm = rng.choice(BITMAPS[1:]) if rng.random() < 0.9 else 0
+        return {"owner": o, "remove": False, "bitmap": "%x" % bm, "ips": [rng.choice(addrs) for _ in range(rng.choice([1, 1, 2, 3]))]}
+    pre = [mk(rng.choice(owners)) for _ in range(rng.choice([0, 0, 1, 2, 3]))]
+    oa, ob = rng.sample(owners, 2)
+    a, b = mk(oa), mk(ob)
+    if not a["remove"] and not b["remove"] and rng.random() < 0.7:
+        b["ips"] = b["ips"] + [rng.choice(a["ips"])]  # a shared address
+    post = []
+    if rng.random() < 0.6:
+        post += [dict(a), dict(b)]  # the re-sync of both entries
+    post += [mk(rng.choice(owners)) for _ in range(rng.choice([0, 0, 1, 2]))]
+    return {"pre": pre, "a": a, "b": b, "post": post}
+
+
+def conc_case_to_coq(case, res, pool):
+    cN = pool.n
+    tab = {k: ip_int(s) for s, k in res["keys"].items()}
+    owner_ids = {}
+    univ = set(ip_int(a) for a in ADDRS)
+
+    def cop(op):
+        o = owner_ids.setdefault(op["owner"], len(owner_ids) + 1)
+        if op["remove"]:
+            return "(CRemove %s)" % cN(o)
+        ans = [(ipaddress.ip_address(s).version == 4, ip_int(s)) for s in op["ips"]]
+        univ.update(a for _, a in ans)
+        return "(CInsert %s (Build_cache_entry %s %s))" % (cN(o), cN(int(op["bitmap"], 16)), clist([cpair(vlib.cbool(v4), cN(a)) for v4, a in ans]))
+
+    def sh(pairs):
+        out = []
+        for k, v in pairs:
+            if k not in tab:
+                raise KeyError("kernel map / tracker holds a key for no input address: " + k)
+            out.append(cpair(cN(tab[k]), cN(int(v, 16))))
+        return clist(out)
+    pre = clist([cop(o) for o in case["pre"]])
+    a, b = cop(case["a"]), cop(case["b"])
+    post = clist([cop(o) for o in case["post"]])
+    return ("(Build_conc_obs %s %s %s %s %s %s %s %s %s %s)"
+            % (pre, a, b, post, vlib.cbool(res["lock_held_at_write"]), vlib.cbool(res["b_state"] == "completed"),
+               sh(res["shadow_conc"]), sh(res["shadow"]), sh(sorted(res["index"].items())), clist([cN(x) for x in sorted(univ)])))
+
+
+CONC_SIGS = []
+
+
+def run_conc_batch(sc, binary, cases, tag, record=True):
+    """returns ({case index: [(0, code, msg)]}, observations, error)"""
+    inp = sc.path("c10conc_%s.in" % tag)
+    outp = sc.path("c10conc_%s.out" % tag)
+    with open(inp, "w") as f:
+        for c in cases:
+            f.write(json.dumps(c) + "\n")
+    rc, so, se, dt = vlib.run_go_harness(binary, "TestVerifC10Conc", inp, outp)
+    if rc != 0:
+        return None, None, "concurrency harness failed rc=%d: %s %s" % (rc, so[-2000:], se[-2000:])
+    results = [json.loads(l) for l in open(outp)]
+    pool = vlib.NumPool()
+    errors, terms, idx = {}, [], []
+    for i, (c, r) in enumerate(zip(cases, results)):
+        if r.get("panic") or r.get("err"):
+            errors[i] = [(0, 9, "panic/error: " + (r.get("panic") or r.get("err")))]
+            continue
+        if r["b_state"] == "unknown" or (r["b_state"] == "blocked" and r.get("b_observed_while_parked")):
+            errors[i] = [(0, 9, "inconclusive: B neither returned nor was seen waiting for the tracker mutex while A was parked (b_state=%s, observed=%s)"
+                          % (r["b_state"], r.get("b_observed_while_parked")))]
+            continue
+        try:
+            terms.append(conc_case_to_coq(c, r, pool))
+            idx.append(i)
+        except KeyError as e:
+            errors[i] = [(0, 2, str(e))]
+    text = ("From Coq Require Import List NArith Bool.\nFrom Dae Require Import C10_Spec C10_Model C10_Cache C10_Check C10_Conc_Model.\n"
+            "From Dae.gen Require Import C10_SyncProg.\nImport ListNotations.\nOpen Scope N_scope.\n" + pool.header() +
+            "Definition cases : list conc_obs := [\n" + ";\n".join(terms) + "\n].\n"
+            "Definition R := Eval vm_compute in map (check_conc sync_prog) cases.\nPrint R.\n"
+            "Definition S := Eval vm_compute in map conc_signature cases.\nPrint S.\n")
+    ok, outtxt = vlib.coq_eval("C10_conc_%s" % tag, text)
+    if not ok:
+        return None, None, "coq evaluation failed: " + outtxt[-3000:]
+    m = re.search(r"R\s*=\s*(.*?)\n\s*:\s*list", outtxt, re.S)
+    per = re.findall(r"\[([\d;]*)\]", re.sub(r"\s+", "", m.group(1))[1:-1]) if m else None
+    if per is None or len(per) != len(idx):
+        return None, None, "cannot parse coq output of the concurrency check: " + outtxt[-500:]
+    for i, p_ in zip(idx, per):
+        errors[i] = [(0, int(x), "") for x in p_.split(";") if x]
+    if record:
+        m2 = re.search(r"S\s*=\s*(.*?)\n\s*:\s*list", outtxt, re.S)
+        if m2:
+            CONC_SIGS.extend(re.findall(r"\((\d+),(\d+),(\d+),(\d+)\)", re.sub(r"\s+", "", m2.group(1))))
+    return errors, results, None
+
+
+def shrink_conc(sc, binary, case):
+    def fails(c):
+        errs, _, err = run_conc_batch(sc, binary, [c], "shrink", record=False)
+        return err is None and any(code == 2 for (_, code, _) in errs.get(0, []))
+    cur = case
+    for cand in (dict(cur, pre=[], post=[]), dict(cur, pre=[]), dict(cur, post=[])):
+        if fails(cand):
+            cur = cand
+            break
+    for field in ("pre", "post"):
+        i = 0
+        while i < len(cur[field]) and len(cur[field]) <= 6:
+            cand = dict(cur, **{field: cur[field][:i] + cur[field][i + 1:]})
+            if fails(cand):
+                cur = cand
+            else:
+                i += 1
+    return cur
+
+
 def replay(path):
     """re-run exactly one recorded case against the implementation, the model and the spec"""
     rp = json.load(open(path))["replay"]
@@ -559,7 +730,18 @@ def replay(path):
         if binary is None:
             print("harness build failed")
             return 1
-        if "bitmaps" in case:
+        if "a" in case and "b" in case:
+            prog, perr = extract_sync_prog()
+            print("syncOwner as extracted from the source:", prog or perr)
+            if prog:
+                write_sync_prog(prog)
+                vlib.coq_make(["gen/C10_SyncProg.vo", "C10_Check.vo"])
+            errs, obs, err = run_conc_batch(sc, binary, [case], "replay", record=False)
+            print("schedule: the calls of `pre` one after the other; A runs up to its kernel-write step and is parked there; B is started; A is released; both return; the calls of `post`")
+            if obs:
+                print("observed:", json.dumps({k: obs[0].get(k) for k in ("lock_held_at_write", "b_state", "b_observed_while_parked", "order", "shadow_conc", "shadow", "index")}))
+            print("concurrency stream codes:", CONC_CODES)
+        elif "bitmaps" in case:
             errs, err = run_ctl_batch(sc, binary, [case], "replay")
         else:
             errs, _, err = run_batch(sc, binary, [case], "replay")
@@ -602,9 +784,14 @@ def main(argv):
             ok3, pinfo3 = vlib.proof_stage(out, "C10_Ctl_Props.v", ["C10_Ctl_Props.vo"])
             if not ok3:
                 proof_ok, pinfo["failed"] = False, pinfo3["failed"]
-        proofs["res"] = (proof_ok, pinfo, pinfo2, pinfo3)
+        # concurrency theorems: stated about the program extracted from the source (gen/C10_SyncProg.v); kept
+        # apart so that a change of the locking shape does not trigger the widened searches of the other streams
+        conc_ok, pinfo4 = vlib.proof_stage(out, "C10_Conc_Props.v", ["C10_Conc_Props.vo"])
+        proofs["res"] = (proof_ok, pinfo, pinfo2, pinfo3, conc_ok, pinfo4)
     bt = threading.Thread(target=_build)
     bt.start()
+    sync_prog, sync_err = extract_sync_prog()
+    write_sync_prog(sync_prog or [])
     vlib.coq_make(TARGETS)  # C10_Check.vo must exist before any case file is evaluated; failures are reported by the proof stage
     pt = threading.Thread(target=_proofs)
     pt.start()
@@ -613,29 +800,39 @@ def main(argv):
         pt.join()
         if "res" not in proofs:
             bad = {"obligations": 0, "discharged": 0, "assumptions": [], "theorems": [], "failed": {"stage": "proof stage crashed"}}
-            return False, bad, dict(bad), dict(bad)
+            return False, bad, dict(bad), dict(bad), False, dict(bad)
         return proofs["res"]
     try:
         bt.join()
-        return _main_rest(args, out, rng, n_cases, wait_proofs, sc, built.get("res", (None, "harness build thread died")))
+        return _main_rest(args, out, rng, n_cases, wait_proofs, sc, built.get("res", (None, "harness build thread died")), (sync_prog, sync_err))
     finally:
         pt.join()
         sc_cm.__exit__(None, None, None)
 
 
-def _main_rest(args, out, rng, n_cases, wait_proofs, sc, built):
+def _main_rest(args, out, rng, n_cases, wait_proofs, sc, built, sync_info):
     import threading
     binary, blog = built
-    corpus, ctl_corpus = [], []
+    sync_prog, sync_err = sync_info
+    corpus, ctl_corpus, conc_corpus = [], [], []
     cdir = os.path.join(vlib.VERIF, "corpus", PID)
     if os.path.isdir(cdir):
         for n in sorted(os.listdir(cdir)):
-            (ctl_corpus if n.startswith("ctl_") else corpus).append(json.load(open(os.path.join(cdir, n))))
+            (ctl_corpus if n.startswith("ctl_") else conc_corpus if n.startswith("conc_") else corpus).append(json.load(open(os.path.join(cdir, n))))
     cases = corpus + [gen_case(rng, big=(args.tier == "thorough" and i % 4 == 0)) for i in range(n_cases)]
     n_ctl = 150 if args.tier == "quick" else 3000
     n_ctl2 = 100 if args.tier == "quick" else 3000
     ctl_cases = [gen_ctl_case(rng) for _ in range(n_ctl)]
     ctl_cases += ctl_corpus + [gen_ctl_case2(rng) for _ in range(n_ctl2)]
+    n_conc = 40 if args.tier == "quick" else 1000
+    conc_cases = conc_corpus + [gen_conc_case(rng) for _ in range(n_conc)]
+    conc_first = {}
+
+    def _conc():
+        try:
+            conc_first["res"] = run_conc_batch(sc, binary, conc_cases, "k")
+        except Exception as ex:
+            conc_first["res"] = (None, None, "concurrency stream crashed: %r" % (ex,))
 
     def run_ctl_all(cs, tagp):
         fails, err_ = [], None
@@ -663,6 +860,7 @@ def _main_rest(args, out, rng, n_cases, wait_proofs, sc, built):
             probe["res"] = (None, "reload probe crashed: %r" % (ex,))
     ct = None
     ot = None
+    kt = None
     all_err = {}
     sigs = []
     shard = 400
@@ -672,6 +870,8 @@ def _main_rest(args, out, rng, n_cases, wait_proofs, sc, built):
         ct.start()
         ot = threading.Thread(target=_probe)
         ot.start()
+        kt = threading.Thread(target=_conc)
+        kt.start()
         for s in range(0, len(cases), shard):
             errs, sg, err = run_batch(sc, binary, cases[s:s + shard], "b%d" % s)
             if err:
@@ -681,12 +881,12 @@ def _main_rest(args, out, rng, n_cases, wait_proofs, sc, built):
                 if e:
                     all_err[s + i] = e
             sigs += sg
-    proof_ok, pinfo, pinfo2, pinfo3 = wait_proofs()
-    cov = {"obligations": pinfo["obligations"] + pinfo2["obligations"] + pinfo3["obligations"],
-           "discharged": pinfo["discharged"] + pinfo2["discharged"] + pinfo3["discharged"],
-           "checker_cmd": "cd /verif/coq && coq_makefile -f _CoqProject -o Makefile && make -j16 " + " ".join(TARGETS) + " && coqc -Q . Dae C10_Props.v / C10_CacheProps.v / C10_Ctl_Props.v (Print Assumptions captured)",
-           "theorems": pinfo.get("theorems", []) + pinfo2.get("theorems", []) + pinfo3.get("theorems", []),
-           "print_assumptions": pinfo.get("assumptions", []) + pinfo2.get("assumptions", []) + pinfo3.get("assumptions", []),
+    proof_ok, pinfo, pinfo2, pinfo3, conc_ok, pinfo4 = wait_proofs()
+    cov = {"obligations": pinfo["obligations"] + pinfo2["obligations"] + pinfo3["obligations"] + pinfo4["obligations"],
+           "discharged": pinfo["discharged"] + pinfo2["discharged"] + pinfo3["discharged"] + pinfo4["discharged"],
+           "checker_cmd": "cd /verif/coq && coq_makefile -f _CoqProject -o Makefile && make -j16 " + " ".join(TARGETS) + " && coqc -Q . Dae C10_Props.v / C10_CacheProps.v / C10_Ctl_Props.v / C10_Conc_Props.v (Print Assumptions captured)",
+           "theorems": pinfo.get("theorems", []) + pinfo2.get("theorems", []) + pinfo3.get("theorems", []) + pinfo4.get("theorems", []),
+           "print_assumptions": pinfo.get("assumptions", []) + pinfo2.get("assumptions", []) + pinfo3.get("assumptions", []) + pinfo4.get("assumptions", []),
            "trusted_base": vlib.TRUSTED_BASE_COMMON + [
                "verif-tagged observer in syncOwner (control/verif_hooks_on.go) reporting the computed batches; the stub build cannot write a real eBPF map",
                "Go maps modelled as total functions N -> option V; owner strings and 128-bit addresses numbered injectively by the orchestrator via the production key function",
@@ -798,8 +998,68 @@ def _main_rest(args, out, rng, n_cases, wait_proofs, sc, built):
                                                              "the same history with 900 names passes. Model: C10_ctl_mirror_full_refuted." % BPF_UPDATE_QUEUE_SIZE},
                               "controller-level: after a reload of %d cached names (more than the re-sync task queue of %d) live cache entries are missing from the kernel table" % (n_live, BPF_UPDATE_QUEUE_SIZE),
                               matchers=[OVERFLOW_MATCHER])
+        # ---- third stream: concurrent syncOwner calls ----
+        kt.join()
+        kerrs, kobs, kerr = conc_first["res"]
+        conc_widened = False
+        conc_cov = {"cases": len(conc_cases), "sync_prog": sync_prog or sync_err, "holds_mutex_across_write": sync_prog == CODE_PROG,
+                    "schedule": "calls of `pre` sequentially; goroutine A parked at its kernel-write step (VerifDomainRoutingObserver); goroutine B started; observed: tracker.mu.TryLock() while A is parked, B returned / B waiting in sync.Mutex.Lock (runtime.Stack) and B's observer not called; A released; `post` sequentially",
+                    "comparisons": "impl observations and kernel shadow (after the pair, after post) and tracker merged values = model run of the extracted program under the same schedule; model = table of a sequential order; impl = table of a sequential order",
+                    "codes": CONC_CODES}
+
+        def conc_split(errs):
+            spec = sorted(i for i, e in errs.items() if any(c in (2,) for (_, c, _) in e))
+            other = sorted(i for i, e in errs.items() if e and not any(c in (2,) for (_, c, _) in e))
+            return spec, other
+        if kerr:
+            out.violation("conc_tie", {"correspondence": kerr, "sync_prog": sync_prog or sync_err},
+                          "concurrency correspondence could not be evaluated", no_failing_input=True)
+        else:
+            kspec, kother = conc_split(kerrs)
+            all_conc, all_kerrs, all_kobs = list(conc_cases), dict(kerrs), list(kobs)
+            if (kother or not conc_ok or sync_prog is None) and not kspec:
+                conc_widened = True
+                extra = [gen_conc_case(rng) for _ in range(10 * n_conc)]
+                xerrs, xobs, xerr = run_conc_batch(sc, binary, extra, "kw", record=False)
+                if not xerr:
+                    base_n = len(all_conc)
+                    all_conc += extra
+                    all_kobs += xobs
+                    for i, e in xerrs.items():
+                        all_kerrs[base_n + i] = e
+                    kspec, kother = conc_split(all_kerrs)
+            conc_cov.update(failing=len(kspec), tie_failures=len(kother), widened_search=conc_widened,
+                            blocked_confirmed=sum(1 for r in kobs if r.get("b_state") == "blocked" and r.get("lock_held_at_write")),
+                            distinct_signatures=len(set(CONC_SIGS)))
+            if kspec:
+                i = kspec[0]
+                small = shrink_conc(sc, binary, all_conc[i])
+                serrs, sobs, _ = run_conc_batch(sc, binary, [small], "final", record=False)
+                o = (sobs or [all_kobs[i]])[0]
+                payload = {"case": small, "errors": (serrs or {}).get(0) or all_kerrs[i], "codes": CONC_CODES,
+                           "schedule": ["each call of pre, one after the other",
+                                        "goroutine A: BatchUpdate/RemoveDomainRouting(a) runs up to the kernel-write step of syncOwner and is parked there",
+                                        "goroutine B: BatchUpdate/RemoveDomainRouting(b) is started while A is parked",
+                                        "A is released; both return", "each call of post, one after the other"],
+                           "observed": {k: o.get(k) for k in ("lock_held_at_write", "b_state", "b_observed_while_parked", "order", "shadow_conc", "shadow", "index")},
+                           "sync_prog_extracted": sync_prog or sync_err,
+                           "how": "feed case to TestVerifC10Conc: the kernel shadow map after the concurrent pair (or after post) is the table of neither sequential order of the two calls"}
+                if not conc_ok:
+                    payload["proof"] = pinfo4.get("failed")
+                out.violation("conc_impl_vs_spec", payload,
+                              "concurrent syncOwner calls: the kernel table differs from the union of the live owners' bitmaps after two overlapping syncs (%d failing schedules)" % len(kspec))
+            elif kother or not conc_ok or sync_prog is None:
+                what = {"sync_prog_extracted": sync_prog or sync_err, "codes": CONC_CODES,
+                        "searched": "%d concurrent pairs (widened=%s) with no impl<>spec disagreement" % (len(all_conc), conc_widened)}
+                if not conc_ok:
+                    what["proof"] = pinfo4.get("failed")
+                    what["broken"] = "theorem C10_mirror_concurrent does not close for the locking shape extracted from syncOwner"
+                if kother:
+                    what["correspondence_case"] = {"case": all_conc[kother[0]], "errors": all_kerrs[kother[0]], "observed": all_kobs[kother[0]]}
+                out.violation("conc_tie", what, "concurrent syncOwner calls: proof obligation or model correspondence no longer checks; no failing schedule found",
+                              no_failing_input=True)
         gsigs = set(CTL_SIGS)
-        cov_ctl = {"controller_histories": len(ctl_cases), "controller_failures": len(ctl_fail), "reload_overflow_probe": probe_cov,
+        cov_ctl = {"controller_histories": len(ctl_cases), "controller_failures": len(ctl_fail), "reload_overflow_probe": probe_cov, "concurrent_sync": conc_cov,
                    "controller_glue": dict(CTL_STATS, distinct_signatures=len(gsigs),
                                            distinct_nontrivial=len(set(g for g in gsigs if int(g[0]) > 0 and int(g[1]) > 0 and int(g[3]) > 0)),
                                            rule="signature = (#operations issuing an update call, #operations issuing a remove call, #reloads, #steps with two live scopes of one base key sharing an address); non-trivial = update and remove calls and a shared scoped address",
